@@ -26,6 +26,13 @@ struct OptW(Option<Pair>, LTerm);
 #[compound]
 struct WOpt(LTerm, Option<Pair>, LTerm);
 
+// named fields, one of them compound-typed (a link, a link-typed variable or []): a singly linked chain
+#[compound]
+struct NLink {
+    label: LTerm,
+    next: NLink,
+}
+
 const NONE_MARK: &str = "__harness_none__";
 
 fn opt_field(o: &T) -> Option<Pair<U, E>> {
@@ -98,6 +105,13 @@ pub fn build_comp(tag: &str, mut args: Vec<T>) -> T {
                 _ => panic!("harness: Opt payload must be a Pair"),
             };
             let p: OptW<U, E> = Downcast::into_sub(OptW_compound::_InnerOptW(field, c));
+            Upcast::into_super(p)
+        }
+        "NLink" => {
+            let a = nx();
+            let n = nx();
+            // any term may sit in the typed position (the typed wrapper is a view of a term)
+            let p: NLink<U, E> = Downcast::into_sub(NLink_compound::_InnerNLink { label: a, next: NLink { inner: n } });
             Upcast::into_super(p)
         }
         "WOpt" => {
